@@ -26,6 +26,14 @@ type famInst struct {
 }
 
 func (fx *FuncCtx) instFamilies(env *specEnv, fams []Family) []famInst {
+	return fx.instFamiliesNamed(env, fams, "k_")
+}
+
+// instFamiliesNamed: the function's own (cached) families get bound constants with a reserved
+// prefix and a counter that snapshot/restore never rewinds, so that they can never coincide with
+// the fresh constants of a callee's family instantiated later (a collision made f.at substitute
+// into the wrong family: found by a contract-writing agent on Dpbtrs).
+func (fx *FuncCtx) instFamiliesNamed(env *specEnv, fams []Family, prefix string) []famInst {
 	var out []famInst
 	for _, f := range fams {
 		sv, ok := fx.specEval(env, f.Slice).v.(SliceV)
@@ -36,7 +44,14 @@ func (fx *FuncCtx) instFamilies(env *specEnv, fams []Family) []famInst {
 		if !f.Whole {
 			c := env.child()
 			for i, v := range f.Vars {
-				k := fx.freshConst("k_"+v, SInt)
+				var k Term
+				if prefix == "k_" {
+					k = fx.freshConst("k_"+v, SInt)
+				} else {
+					fx.ownFamN++
+					k = fx.declConst(fmt.Sprintf("%s%s_%d", prefix, smtName(v), fx.ownFamN), SInt)
+					fx.permDecls = append(fx.permDecls, fmt.Sprintf("(declare-const %s Int)", k.S))
+				}
 				fi.vars = append(fi.vars, k)
 				// bounds may mention earlier variables
 				fi.lo = append(fi.lo, fx.specTerm(c, f.Lo[i]))
@@ -109,7 +124,7 @@ func (fx *FuncCtx) entryFamilies() []famInst {
 		return fx.famCache
 	}
 	env := &specEnv{fx: fx, cur: fx.entry, old: fx.entry, binds: map[string]sval{}, entryParams: true}
-	fx.famCache = fx.instFamilies(env, fx.con.Writes)
+	fx.famCache = fx.instFamiliesNamed(env, fx.con.Writes, "kown_")
 	if fx.famCache == nil {
 		fx.famCache = []famInst{}
 	}
@@ -705,7 +720,7 @@ func (fx *FuncCtx) readsChecked() bool {
 func (fx *FuncCtx) entryReadFamilies() []famInst {
 	if fx.rfamCache == nil {
 		env := &specEnv{fx: fx, cur: fx.entry, old: fx.entry, binds: map[string]sval{}, entryParams: true}
-		fx.rfamCache = fx.instFamilies(env, fx.con.Reads)
+		fx.rfamCache = fx.instFamiliesNamed(env, fx.con.Reads, "kownr_")
 		if fx.rfamCache == nil {
 			fx.rfamCache = []famInst{}
 		}
